@@ -157,6 +157,9 @@ pub struct Cli {
     /// pass the directory of the main documents instead of the files (order is up to read_dir)
     #[serde(default)]
     pub as_directory: bool,
+    /// name documents (and -P/-A) relative to the directory scrut is started in
+    #[serde(default)]
+    pub relative_paths: bool,
 }
 
 #[derive(Clone, Debug, PartialEq, Eq, Serialize, Deserialize)]
